@@ -84,6 +84,10 @@ def run_inovesa(variant, opts, cwd, xdg, timeout=180, env=None, extra_args=(), c
     if env:
         e.update(env)
     r = core.run_cmd(argv, cwd=cwd, env=e, timeout=timeout)
+    if r["hang"]:
+        # a watchdog firing on a loaded machine is inconclusive: re-run once with twice the budget before calling it a hang
+        r = core.run_cmd(argv, cwd=cwd, env=e, timeout=2 * timeout)
+        r["retried_after_timeout"] = True
     r["argv"] = argv
     return r
 
